@@ -885,7 +885,8 @@ class Exec:
         if hasattr(base, 'getattr'):
             yield from base.getattr(self, p, attr, node)
             return
-        if isinstance(base, (VStr, VInt, VFloat, VMpf, VTuple, VBool)) or isinstance(base, VFunc) and base.kind in ('class', 'builtin'):
+        if isinstance(base, (VStr, VInt, VFloat, VMpf, VTuple, VBool)) or isinstance(base, VFunc) and base.kind in ('class', 'builtin') \
+                or hasattr(base, 'method'):
             yield p, VFunc('valmethod', attr, base)
             return
         raise EngineError(f'attribute {attr} of {base!r}')
